@@ -79,6 +79,16 @@ func (s *State) VerifAnyLoading() bool {
 	return false
 }
 
+// VerifLockHeld reports whether State.m is held by somebody right now (TryLock probe), for the
+// output callback: a frame emitted while nobody holds the lock was emitted outside the discipline.
+func (s *State) VerifLockHeld() bool {
+	if s.m.TryLock() {
+		s.m.Unlock()
+		return false
+	}
+	return true
+}
+
 const (
 	VerifLoading = loading
 	VerifNormal  = normal
